@@ -14,7 +14,7 @@ import re
 
 import gbnmc
 import gbntrace
-from vlib import Infra, build_drivers, log, run_driver, tlc, write_evidence
+from vlib import Infra, apalache, build_drivers, log, run_driver, tlc, write_evidence
 
 WIN_CFG = """CONSTANTS
   SVals = {%s}
@@ -57,6 +57,12 @@ def run(ctx):
     w = tlc(ctx, "MC_Window", WIN_CFG % svals, "mc_window", timeout=1200)
     if not w["ok"]:
         raise Infra("Window.tla lemma violated: " + w["out"][-2000:])
+    # the same lemma for every sequence space 2..256 at once (Apalache, SMT);
+    # the pinned, unguarded arithmetic must be refuted
+    if apalache(ctx, "ApaWindow", "Lemma", "lemma") != "ok":
+        raise Infra("ApaWindow: the window lemma does not hold for every s")
+    if apalache(ctx, "ApaWindow", "DevLemma", "devlemma") != "violated":
+        raise Infra("ApaWindow: the unguarded arithmetic was not refuted")
     names = ["n1_3msg_1drop", "n2_3msg_wrap_1drop"] if quick else \
         list(gbnmc.THOROUGH)
     cfgs = {k: gbnmc.THOROUGH[k] for k in names}
@@ -121,6 +127,7 @@ def run(ctx):
                     {"blocking_run": runs1[0]["desc"]},
                     {"random_run": runs2[0]["desc"]}],
         "svals_model": svals, "svals_impl": wsum["svals"],
+        "window_lemma_all_s_2_256_apalache": True,
         "mc_configs": per,
         "exhaustive": True,
         "checker_cmd": "tlc MC_Window.tla; tlc MC_GBN.tla; tlc Trace_Window.tla; "
